@@ -476,6 +476,17 @@ pub assume_specification<T> [<T as From<T>>::from](t: T) -> (r: T)
 // [A-ordering-eq] derive(PartialEq) on std::cmp::Ordering
 pub assume_specification [<Ordering as PartialEq>::eq](a: &Ordering, b: &Ordering) -> (r: bool)
     ensures r == (*a == *b);
+// [A-option-map-or] Option::map_or
+pub assume_specification<T, U, F> [std::option::Option::<T>::map_or] (o: std::option::Option<T>, default: U, f: F) -> (r: U)
+    where F: std::ops::FnOnce(T,) -> U + std::marker::Destruct, U: std::marker::Destruct,
+    requires o matches Some(x) ==> call_requires(f, (x,)),
+    ensures
+        o is None ==> r == default,
+        o matches Some(x) ==> call_ensures(f, (x,), r);
+// [A-option-as-deref] Option::as_deref (only the Some/None shape is specified)
+pub assume_specification<T> [std::option::Option::<T>::as_deref] (o: &std::option::Option<T>) -> (r: std::option::Option<&<T as std::ops::Deref>::Target>)
+    where T: std::ops::Deref,
+    ensures (r is Some) == (o is Some);
 // [A-unwrap-or-else] Result::unwrap_or_else
 pub assume_specification<T, E, F> [std::result::Result::<T, E>::unwrap_or_else] (res: std::result::Result<T, E>, f: F) -> (o: T)
     where F: std::ops::FnOnce(E,) -> T + std::marker::Destruct,
@@ -937,3 +948,42 @@ pub fn hashmap_group_push(map: &mut HashMap<u16, Vec<SSKRShare>>, id: u16, share
 #[verifier::external_body]
 pub fn hashmap_values_cloned(map: HashMap<u16, Vec<SSKRShare>>) -> (r: Vec<Vec<SSKRShare>>)
 { unimplemented!() }
+
+// ============================================================================ text leaves
+// dcbor `From<String> for CBOR` / `From<&str> for CBOR`: a Text item determined by the characters  [A-text-cbor]
+pub uninterp spec fn text_cbor(s: Seq<char>) -> CBOR;
+impl vstd::std_specs::convert::FromSpecImpl<String> for CBOR {
+    open spec fn obeys_from_spec() -> bool { true }
+    open spec fn from_spec(x: String) -> Self { text_cbor(x@) }
+}
+impl From<String> for CBOR {
+    #[verifier::external_body]
+    fn from(x: String) -> Self { unimplemented!() }
+}
+impl<'a> vstd::std_specs::convert::FromSpecImpl<&'a str> for CBOR {
+    open spec fn obeys_from_spec() -> bool { true }
+    open spec fn from_spec(x: &'a str) -> Self { text_cbor(x@) }
+}
+impl<'a> From<&'a str> for CBOR {
+    #[verifier::external_body]
+    fn from(x: &'a str) -> Self { unimplemented!() }
+}
+impl vstd::std_specs::convert::TryFromSpecImpl<CBOR> for String {
+    open spec fn obeys_try_from_spec() -> bool { false }
+    uninterp spec fn try_from_spec(c: CBOR) -> Result<String, Error>;
+}
+impl TryFrom<CBOR> for String {
+    type Error = Error;
+    // [A-text-cbor] String::try_from(cbor) is Ok(s) exactly for the Text item of s
+    #[verifier::external_body]
+    fn try_from(c: CBOR) -> (r: Result<String, Error>)
+        ensures r matches Ok(s) ==> text_cbor(s@) == c, (exists|t: Seq<char>| text_cbor(t) == c) ==> r is Ok
+    { unimplemented!() }
+}
+// [A-text-cbor] distinct texts have distinct items
+pub broadcast axiom fn axiom_text_cbor_inj(a: Seq<char>, b: Seq<char>)
+    requires #[trigger] text_cbor(a) == #[trigger] text_cbor(b)
+    ensures a == b;
+// [A-str-to-string] str::to_string / String::as_str / Option::as_deref keep the characters
+#[verifier::external_body]
+pub fn str_to_string(s: &str) -> (r: String) ensures r@ == s@ { unimplemented!() }
